@@ -1,20 +1,36 @@
 ---- MODULE CallFramesOps ----
 (* The world of C16 (see CallFrames.tla): a small abstract account state plus the change journal the platform
-   reverts with, as pure operators.  Shared by the generator CallFrames.tla and the validator TraceCallFrames.tla. *)
+   reverts with, as pure operators.  Shared by the generator CallFrames.tla and the validator TraceCallFrames.tla.
+
+   CREATION FRAMES.  Every account a of the universe (sender and contracts) can create ONE address New(a) per
+   transaction (crypto.CreateContractAddress(caller, tx hash): no nonce).  A creation frame runs init code in the
+   context of the new address after the endowment has moved there; when the init code has ended normally the platform
+   still has to take the code deposit: the frame only succeeds if the returned code is not longer than the maximum and
+   the gas left pays for it, then code and the platform's creation record appear at the new address.  In every other
+   case (revert, error, code too big, deposit not affordable) the frame is undone to its mark - endowment, storage
+   written by the init code, everything its inner frames did - and only the platform's failure record stays. *)
 EXTENDS Integers, Sequences, FiniteSets, TLC, SequencesExt
 
-CONSTANTS Contracts,    \* accounts holding code
+CONSTANTS Contracts,    \* accounts holding code in the parent block
           Sender,       \* the transaction sender
-          Slots         \* storage keys
+          Slots,        \* storage keys
+          Creators      \* the accounts (of Contracts and Sender) that may create a contract: their new addresses are part of the world
 
-Addrs == Contracts \cup {Sender}
-LogTypes == {"bal", "stor", "ev", "sui"}
+New(a) == "n" \o a                                      \* the one address a can create in this transaction
+Created == {New(a) : a \in Creators}
+CA == Contracts \cup Created                            \* accounts that can hold code and storage
+Addrs == CA \cup {Sender}
+LogTypes == {"bal", "stor", "ev", "sui", "code"}
 ZeroStor == [s \in Slots |-> 0]
+CallKinds == {"call", "callcode", "delegatecall", "staticcall"}
 
 \* ------------------------------------------------------------------ the world and its change journal
-\* bal: [Addrs -> Nat]; stor: [Contracts -> [Slots -> Nat]] = the storage committed in the parent block
+\* bal: [Creators -> Nat] (or over all of Addrs: a created address may hold funds already - then a creation collides);
+\* stor: [Contracts -> [Slots -> Nat]] = the storage committed in the parent block
+BalOf(bal, a) == IF a \in DOMAIN bal THEN bal[a] ELSE 0
 World0(devS, devG, bal, stor) ==
-  [stor |-> stor, base |-> stor, bal |-> bal, dead |-> [c \in Contracts |-> FALSE], code |-> [c \in Contracts |-> TRUE],
+  LET st == [c \in CA |-> IF c \in DOMAIN stor THEN stor[c] ELSE ZeroStor] IN
+  [stor |-> st, base |-> st, bal |-> [a \in Addrs |-> BalOf(bal, a)], dead |-> [c \in CA |-> FALSE], code |-> [c \in CA |-> c \in Contracts],
    jr |-> <<>>,                                          \* journal of undo records
    nv |-> [k \in Addrs \X LogTypes |-> 0],                \* last version handed out per (account, log type); never decreases
    devS |-> devS, devG |-> devG, crash |-> FALSE]
@@ -37,11 +53,14 @@ SuicideW(w, c, b) ==
   ELSE LET w1 == SetBal(w, b, w.bal[b] + w.bal[c])
        IN [Push(w1, c, "sui", w1.bal[c], "", w1.stor[c], w1.code[c])
              EXCEPT !.bal[c] = 0, !.stor[c] = ZeroStor, !.dead[c] = TRUE, !.code[c] = FALSE]
+\* the code deposit of a creation: the returned code (hascode: it is not empty) becomes the account's code
+SetCodeW(w, c, hascode) == [Push(w, c, "code", 0, "", ZeroStor, w.code[c]) EXCEPT !.code[c] = hascode]
 
 UndoOne(w, e) ==
   CASE e.t = "bal"  -> [w EXCEPT !.bal[e.a] = e.ob]
     [] e.t = "stor" -> [w EXCEPT !.stor[e.a][e.sl] = e.ob]
     [] e.t = "ev"   -> w
+    [] e.t = "code" -> [w EXCEPT !.code[e.a] = e.oc]
     [] e.t = "sui"  -> [w EXCEPT !.bal[e.a] = e.ob, !.dead[e.a] = FALSE, !.code[e.a] = e.oc,
                                  !.stor[e.a] = IF w.devS THEN w.base[e.a] ELSE e.os]
 \* undo the journal entries above the mark, newest first (FoldLeft: evaluated iteratively by TLC)
@@ -58,21 +77,26 @@ GapIn(jr, mark) ==
 RevertTo(w, mark) == IF w.devG /\ GapIn(w.jr, mark) THEN [w EXCEPT !.crash = TRUE] ELSE Undo(w, mark)
 
 NEv(w, tag) == Cardinality({i \in 1..Len(w.jr) : w.jr[i].t = "ev" /\ w.jr[i].sl = tag})
-\* what the property speaks about (the platform's own failure events are counted separately)
+\* what the property speaks about (the platform's own failure / creation records are counted separately)
 Obs(w) == [stor |-> w.stor, bal |-> w.bal, dead |-> w.dead, code |-> w.code, nlog |-> NEv(w, "log")]
 
 \* ------------------------------------------------------------------ frames
-CtxOf(kind, to, callerCtx) == IF kind \in {"call", "staticcall"} THEN to ELSE callerCtx
+CtxOf(kind, to, callerCtx) == IF kind \in {"call", "staticcall", "create"} THEN to ELSE callerCtx
 \* evm.Call etc. after the depth / balance checks: Snapshot, then (Call only) the value transfer unless the callee
-\* has no code and nothing is sent
+\* has no code and nothing is sent; evm.Create: Snapshot, then the endowment moves to the new address
 EnterW(w, kind, callerCtx, to, val) ==
-  IF kind = "call" /\ (w.code[to] \/ val > 0) THEN Transfer(w, callerCtx, to, val) ELSE w
+  IF kind = "create" \/ (kind = "call" /\ (w.code[to] \/ val > 0)) THEN Transfer(w, callerCtx, to, val) ELSE w
 Frame(w, kind, callerCtx, callerRo, to) ==
   [k |-> kind, ctx |-> CtxOf(kind, to, callerCtx), to |-> to, ro |-> callerRo \/ kind = "staticcall",
    mark |-> Len(w.jr), snap |-> Obs(w), nfail |-> NEv(w, "fail")]
-\* a frame that ends in revert / error: undo to the mark; evm.Call (only) then records the failure event
+\* a frame that ends in revert / error (a creation also: code too big, deposit not affordable): undo to the mark;
+\* evm.Call and evm.Create (only) then record the failure event
 FailW(w, f) ==
   LET w1 == RevertTo(w, f.mark)
-  IN IF w1.crash \/ f.k # "call" THEN w1 ELSE EventW(w1, f.to, "fail")
+  IN IF w1.crash \/ f.k \notin {"call", "create"} THEN w1 ELSE EventW(w1, f.to, "fail")
+\* a creation whose deposit is taken: the code is stored, the platform records the creation
+CreatedW(w, f, hascode) == EventW(SetCodeW(w, f.to, hascode), f.to, "create")
+\* an address holds something: a creation towards it may be refused as a collision
+Occupied(w, bal0, a) == BalOf(bal0, a) > 0 \/ w.bal[a] > 0 \/ w.code[a] \/ w.dead[a] \/ w.stor[a] # ZeroStor
 
 ====
